@@ -157,8 +157,9 @@ def _stmt_paths(stmts, prefix=()):
     """All removable positions: (path to list, index)."""
     out = []
     for i, s in enumerate(stmts):
-        out.append(prefix + (i,))
         k = s[0]
+        if k != "return":
+            out.append(prefix + (i,))
         if k == "if":
             for bi, (c, body) in enumerate(s[1]):
                 out += _stmt_paths(body, prefix + (i, "if", bi))
